@@ -183,7 +183,8 @@ def replay(path: str) -> int:
     if rp.get('flap'):
         from harness import sessionrig
         sessionrig.install()
-        print(sessionrig.run_flap_scenario(rp['routes'], rp['cut'], rp['ops'], neighbor_opts=rp.get('opts')))
+        o = rp.get('opts') or {}
+        print(sessionrig.run_flap_scenario(rp['routes'], rp['cut'], rp['ops'], neighbor_opts={k: v for k, v in o.items() if not k.startswith('_')}, peer_families=o.get('_peer_families')))
         return 1
     if rp.get('cache_on', True):
         return C04.replay(path)
@@ -261,8 +262,13 @@ def run_flap(ctx: Ctx) -> None:
             else:
                 ops.append(['flush'])
         nopts = rng.choice([{}, {}, {'rate_limit': 1}, {'group_updates': False}, {'rate_limit': 1, 'group_updates': False}])
+        # the first session may have negotiated fewer families than the second (the peer's OPEN): what the second
+        # session must carry is still the whole intended table of ITS families
+        pf = rng.choice([None, None, ['ipv4 unicast', None], ['ipv6 unicast', None]])
+        if pf:
+            nopts = dict(nopts, _peer_families=pf)
         try:
-            res = sessionrig.run_flap_scenario(routes_text, cut, ops, neighbor_opts=nopts)
+            res = sessionrig.run_flap_scenario(routes_text, cut, ops, neighbor_opts={k: v for k, v in nopts.items() if not k.startswith('_')}, peer_families=pf)
         except Exception as e:  # noqa: BLE001
             ctx.disagreements.append(Disagreement('flap-rig', {'routes': routes_text, 'cut': cut, 'ops': ops, 'opts': nopts}, None, f'{type(e).__name__}: {e}'))
             continue
